@@ -132,8 +132,21 @@ def run_repr(ctx: Ctx) -> RuleResult:
         ok = False
         for s in splits:
             b, o = s.body, s.orelse
-            # bytes arm: b'\n' or ord('\n') (elements of bytes are ints); str arm: '\n'
-            okb = (isinstance(b, ast.Constant) and b.value == b'\n') or norm(b) in ("ord('\\n')", '10')
+            # how is the value used?  compared with *elements* of the text (iteration yields ints for bytes) -> the bytes arm
+            # must be an int; passed to count/rindex (substring search) -> the bytes arm must be b'\n'
+            st = enclosing_stmt(s)
+            var = st.targets[0].id if isinstance(st, ast.Assign) and isinstance(st.targets[0], ast.Name) else None
+            elementwise = False
+            if var is not None:
+                loopvars = {n.target.id for n in f.body_nodes() if isinstance(n, ast.For) and isinstance(n.target, ast.Name)}
+                for c in f.body_nodes():
+                    if isinstance(c, ast.Compare) and var in {x.id for x in ast.walk(c) if isinstance(x, ast.Name)} \
+                            and loopvars & {x.id for x in ast.walk(c) if isinstance(x, ast.Name)}:
+                        elementwise = True
+            if elementwise:
+                okb = norm(b) in ("ord('\\n')", '10', "ord(b'\\n')")
+            else:
+                okb = isinstance(b, ast.Constant) and b.value == b'\n'
             oko = isinstance(o, ast.Constant) and o.value == '\n'
             if okb and oko:
                 ok = True
@@ -209,6 +222,21 @@ def run_window(ctx: Ctx) -> RuleResult:
         res.finding(pf, pf.node, 'a partial TextSlice reaches a dynamic lexer, which scans the whole buffer', construct='dynamic-slice')
     # TextSlice normalisation
     ts = repo.cls('lark.utils:TextSlice')
+    from ..exprs import in_bool_context
+    for m in ts.methods.values():
+        for n in m.body_nodes():
+            if isinstance(n, ast.Attribute) and n.attr in ('start', 'end') and isinstance(n.value, ast.Name) and n.value.id == m.self_name() \
+                    and isinstance(n.ctx, ast.Load) and in_bool_context(n):
+                res.ob('%s %s' % (m.loc(n), m.qual), 'window bound %s is not tested by truthiness (0 is a valid offset)' % norm(n), False)
+                res.finding(m, enclosing_stmt(n), 'the window bound %s is tested by truthiness: offset 0 is treated like "not given" '
+                            '(the empty head window [0, 0) becomes the whole buffer)' % norm(n), construct='bound-truthiness:' + norm(n))
+    pi = ts.methods.get('__post_init__')
+    ok = pi is not None and any(isinstance(n, ast.If) and norm(n.test) == 'self.end is None' for n in pi.body_nodes()) \
+        and any(isinstance(n, ast.If) and norm(n.test) == 'self.start < 0' for n in pi.body_nodes())
+    res.ob('%s TextSlice.__post_init__' % (pi.loc() if pi else ''), 'end=None means len(text); negative bounds count from the end', ok)
+    if not ok:
+        res.finding(pi or ts.qual, pi.node if pi else ts.node, 'TextSlice bound normalisation (None / negative) changed', construct='normalise',
+                    module=ts.module)
     cf = ts.methods.get('cast_from')
     ok = cf is not None and any(isinstance(n, ast.Return) and norm(n.value) == 'cls(text, 0, len(text))' for n in cf.body_nodes())
     res.ob('%s %s' % (cf.loc() if cf else '', 'TextSlice.cast_from'), 'plain text is the window [0, len)', ok)
